@@ -49,6 +49,15 @@ THEOREMS_C02 = [
     ('EAO.Properties.C02', 'EAO.C02.storage_refines_one', 'the same for the one-variable form (x = di - ch)'),
     ('EAO.Properties.C02', 'EAO.C02.transport_refines', 'buildTransport vs textbook transport (f in [min,max]*dt, flows -f / +eff*f, cash -df*cost*|f|): same attainable pairs, incl. the sign flip of the costs when all capacities are <= 0'),
     ('EAO.Properties.C02', 'EAO.C02.contract_refines_one', 'buildSimpleContract in its one-variable form vs textbook contract (q in [min_t,max_t]*dt_t with the rates make_vector returns, flow +q, cash -df*(price*q + ec*|q|)): same attainable pairs'),
+    ('EAO.Properties.C02', 'EAO.C02.contract_refines_two', 'buildSimpleContract in its two-variable form, under ec_t >= 0 and df_t >= 0: problem and textbook contract dominate each other (Refines): textbook -> model by splitting q into negative and positive part (same flow, same cash), model -> textbook by netting x_in + x_out (same flow, no less cash)'),
+    ('EAO.Properties.C02', 'EAO.C02.take_rows_spec', 'the take rows of buildContract hold at x iff the textbook take constraints sum_{t in period and window} q_t (<=|>=) V*covered/((e-s)/unit) hold, q = x (one variable) resp. x_in + x_out (two variables); periods covering no step give no row'),
+    ('EAO.Properties.C02', 'EAO.C02.contract_take_refines', 'buildContract (capacities, spread, min/max takes) vs the textbook contract with the same periods: same attainable pairs in the one-variable form, mutual domination in the two-variable form under ec >= 0, df >= 0'),
+    ('EAO.Properties.C02', 'EAO.C02.multi_refines', 'buildMulti vs the textbook multi-commodity contract: flows factor_k*q_t at node k, feasible set (capacities, takes on q) and cash of the underlying contract; exact resp. Refines as for contracts'),
+    ('EAO.Properties.C02', 'EAO.C02.take_rows_spec_transport', 'the take rows of buildExtTransport (at the first node, factor -1, negated volume, L for a maximum and U for a minimum) hold iff the textbook take constraints on the volume f leaving the first node hold (two different nodes)'),
+    ('EAO.Properties.C02', 'EAO.C02.ext_transport_refines', 'buildExtTransport vs the textbook transport with take periods: same attainable (flows, cash) pairs'),
+    ('EAO.Properties.C02', 'EAO.C02.empty_window_refines', 'on a window without a step every contract/transport builder returns the problem without variables, which attains exactly (no flow, no cash), as does every textbook contract and transport on that window'),
+    ('EAO.Properties.C02', 'EAO.C02.empty_window_refines_storage', 'the same for buildStorage (any options)'),
+    ('EAO.Properties.C02', 'EAO.C02.simple_data', 'inversion of buildSimpleContract: sampled price, spread, rates lo/hi that make_vector returns, volume limits = rate*dt, one- or two-variable problem'),
     ('EAO.Properties.C02', 'EAO.C02.Ex.ec_nonneg_needed', 'witness that the two-variable contract needs ec >= 0: spread -1 lets the model earn 2 with zero net flow, the textbook contract earns 0'),
 ]
 COMPONENTS_C02 = ['oracle textbook: independent scipy/HiGHS LP over physical quantities vs eaopack optimum (2e-6 rel.) and feasibility of eaopack\'s dispatch in it (1e-6); repeated set-up on the same objects',
@@ -473,6 +482,9 @@ def gen_case(rnd):
             if 'start_level' not in args and rnd.random() < 0.5:
                 args['start_level'] = gen.q8(rnd, 0, args['size'])
                 args['end_level'] = gen.q8(rnd, 0, args['size'])
+        if a['type'] == 'Storage' and args.get('cost_store') and 'wacc' not in args and rnd.random() < 0.6:
+            # holding costs are the one cost of a storage that accrues per time, not per flow: discounting matters
+            args['wacc'] = rnd.choice([0.1, 0.5, 1.0, 3.0])
         if 'wacc' not in args and rnd.random() < 0.2:
             args['wacc'] = rnd.choice([0.05, 0.1, 0.5, 0.07])
     return scn
@@ -565,6 +577,21 @@ def _run_case(case, follow_f19c):
         viol('value', 'grid of eaopack has %d steps / dt %s, the reference computes %d / %s' % (
             rec['tg'].T, list(rec['tg'].dt[:4]), G.T, list(G.dt[:4])))
         return r
+    # ---- explicit hypotheses of the refinement theorems, evaluated on this case (EAO.C02.contract_refines_two,
+    #      take_rows_spec: extra costs >= 0, discount factors >= 0, pairwise different steps of the grid)
+    I_all = np.asarray(rec['tg'].I)
+    hyp = []
+    if len(set(I_all.tolist())) != len(I_all):
+        hyp.append('IdxInj')
+    for spec in scn['assets']:
+        ec = spec.get('args', {}).get('extra_costs', 0)
+        if isinstance(ec, (int, float)) and ec < 0:
+            hyp.append('ec>=0:' + spec['name'])
+        w = spec.get('args', {}).get('wacc', 0)
+        if isinstance(w, (int, float)) and w <= -1:
+            hyp.append('df>=0:' + spec['name'])
+    feats.append('hyp:holds' if not hyp else 'hyp:fails')
+    r['observed']['hypotheses_failing'] = hyp
     if len(rec['op'].c) == 0:
         # no asset is active in the horizon: nothing to optimise (cvxpy refuses an empty variable; subject of C08)
         feats.append('empty-problem')
@@ -673,7 +700,7 @@ def selftest(n=300, seed=1, verbose=False):
 if __name__ == '__main__':
     import sys
     import json
-    sys.path.insert(0, '/repo')
+    sys.path.insert(0, os.environ.get('EAO_REPO', '/repo'))
     n = int(sys.argv[1]) if len(sys.argv) > 1 else 300
     seed = int(sys.argv[2]) if len(sys.argv) > 2 else 1
     t = selftest(n, seed, verbose=True)
